@@ -262,11 +262,11 @@ class IeeeJob:
         # bit pattern text as printed in the log (the parsed trace strips braces)
         log = open(os.path.join(self.check.work, 'cbmc', re.sub(r'[^\w.]+', '_', self.name)[:180] + '.log')).read()
         m = None
-        for m in re.finditer(r'^  in_%s=.*\((\{?[01 ,{}]+\}?)\)\s*$' % re.escape(pn), log, re.M):
+        for m in re.finditer(r'^  in_%s=[^\n]*(?:\n   [^\n]*)*?\((\{?[01 ,{}\s]+\}?)\)\s*$' % re.escape(pn), log, re.M):
             pass
         if m is None:
             return ''
-        return m.group(1)
+        return re.sub(r'\s+', ' ', m.group(1))
 
     def adjudicate(self):
         """After a FAILURE: replay the witness on the real code.  Returns (replay path, tail)."""
